@@ -290,13 +290,17 @@ def _multiply(rp, st):
     u, f = rp.heap[a["i"]], rp.heap[a["j"]]
     if a["via"] == "mul":
         return u * f, None
-    return u.multiply(f, update_full=bool(a["full"])), None
+    if not a["full"]:
+        return u.multiply(f), None          # the documented default update_full=False, left to the signature
+    return u.multiply(f, update_full=True), None
 
 
 @binding("Hadamard")
 def _hadamard(rp, st):
     a = st["a"]
-    return rp.heap[a["i"]].hadamard(rp.heap[a["j"]], update_full=bool(a["full"])), None
+    if not a["full"]:
+        return rp.heap[a["i"]].hadamard(rp.heap[a["j"]]), None      # default update_full=False
+    return rp.heap[a["i"]].hadamard(rp.heap[a["j"]], update_full=True), None
 
 
 @binding("Evaluate")
